@@ -229,9 +229,11 @@ def run_c12(res, tier, seed):
             for key, desc, at in fails:
                 res.add_violation("C12/" + key, desc + f" (event {at} of the log)", replay)
             # promptness: a change must not wait for a long query to run to completion
-            bound = max(250_000, cold // 2)
+            # (a reader notices the cancellation at its next query step; one step - parsing or lowering the big module - can
+            # take a good part of the batch on a loaded machine, so the bound is three quarters of the cold batch)
+            bound = max(400_000, (cold * 3) // 4)
             for l in lat:
-                if l > bound and cold >= 600_000:
+                if l > bound and cold >= 800_000:
                     res.add_violation("C12/apply-blocked", f"apply_change took {l} us while readers were busy (cold query batch: {cold} us)", replay)
             if any(e[0] == "A" and e[3] == "cancel" for e in ev):
                 res.cov["distinct_nontrivial"] += 1
